@@ -25,7 +25,6 @@ statements
 """
 from __future__ import annotations
 
-import math
 import operator
 
 BINOPS = ["+", "-", "*", "/", "//", "**", "%"]
@@ -159,11 +158,6 @@ class Ref:
             op = n[1]
             l = self.ev(n[2], env)
             r = self.ev(n[3], env)
-            if op == "**" and isinstance(l, (int, float)) and math.copysign(1, l) < 0:
-                # out of scope here: a negative *constant* base is emitted
-                # unparenthesised by the compiler (-7 ** x), an expression
-                # semantics defect unrelated to interception
-                raise Discard("negative base of **")
             try:
                 real = PY_BIN[op](l, r)
             except Exception as e:
